@@ -757,9 +757,14 @@ class FunctionParser(BaseParser):
     def sync_from_generator(self, generator: Generator, context: RuntimeContext):
         i = 0
         sent = None
+        thrown = None
         while True:
             try:
-                if sent is not None:
+                if thrown is not None:
+                    # an exception thrown into this generator is delivered to the generator body
+                    error, thrown = thrown, None
+                    item = generator.throw(error)
+                elif sent is not None:
                     item = generator.send(sent)
                 else:
                     item = next(generator)
@@ -799,7 +804,15 @@ class FunctionParser(BaseParser):
                         )
                         context.handle_error(error, force_raise=True)
 
-                sent = yield item
+                try:
+                    sent = yield item
+                except GeneratorExit:
+                    generator.close()
+                    raise
+                except BaseException as error:
+                    thrown, sent = error, None
+                    i += 1
+                    continue
 
                 if sent is not None:
                     if self.generator_send_type:
@@ -847,16 +860,26 @@ class FunctionParser(BaseParser):
         def sync_generator(*args, **kwargs):
             gen = eager_generator(*args, **kwargs)
             sent = None
+            thrown = None
             while True:
                 try:
-                    if sent is not None:
+                    if thrown is not None:
+                        error, thrown = thrown, None
+                        item = gen.throw(error)
+                    elif sent is not None:
                         item = gen.send(sent)
                     else:
                         item = next(gen)
                 except StopIteration as err:
                     return err.value
                 else:
-                    sent = yield item
+                    try:
+                        sent = yield item
+                    except GeneratorExit:
+                        gen.close()
+                        raise
+                    except BaseException as error:
+                        thrown, sent = error, None
 
         return sync_generator
 
@@ -867,9 +890,14 @@ class FunctionParser(BaseParser):
         # value is the next item of this generator, it must not be dropped
         i = 0
         sent = None
+        thrown = None
         while True:
             try:
-                if sent is not None:
+                if thrown is not None:
+                    # an exception thrown into this generator is delivered to the generator body
+                    error, thrown = thrown, None
+                    item = await generator.athrow(error)
+                elif sent is not None:
                     item = await generator.asend(sent)
                 else:
                     item = await generator.__anext__()
@@ -893,7 +921,15 @@ class FunctionParser(BaseParser):
                     )
                     context.handle_error(error, force_raise=True)
 
-            sent = yield item
+            try:
+                sent = yield item
+            except GeneratorExit:
+                await generator.aclose()
+                raise
+            except BaseException as error:
+                thrown, sent = error, None
+                i += 1
+                continue
 
             if sent is not None:
                 if self.generator_send_type:
@@ -941,15 +977,25 @@ class FunctionParser(BaseParser):
         async def async_generator(*args, **kwargs):
             async_gen = eager_generator(*args, **kwargs)
             sent = None
+            thrown = None
             while True:
                 try:
-                    if sent is not None:
+                    if thrown is not None:
+                        error, thrown = thrown, None
+                        item = await async_gen.athrow(error)
+                    elif sent is not None:
                         item = await async_gen.asend(sent)
                     else:
                         item = await async_gen.__anext__()
                 except StopAsyncIteration:
                     return
-                sent = yield item
+                try:
+                    sent = yield item
+                except GeneratorExit:
+                    await async_gen.aclose()
+                    raise
+                except BaseException as error:
+                    thrown, sent = error, None
 
         return async_generator
 
